@@ -272,6 +272,42 @@ func ruleR17(c *Ctx, prop string) {
 				okV2, whyV2 = false, "symbolic/unspecified dimensions are compared too: tensors with any size there are no longer accepted"
 			}
 		}
+		// accept side: once a dimension is known to be dynamic, nothing can refuse it — from the dynamic edge
+		// every path leads back to the dimension loop without a return
+		nDynTests := 0
+		for _, b := range v.Blocks {
+			if len(b.Instrs) == 0 {
+				continue
+			}
+			iff, isIf := b.Instrs[len(b.Instrs)-1].(*ssa.If)
+			if !isIf || !c.isDynamicFlag(stripNot(iff.Cond), shapeV, innerIdx) {
+				continue
+			}
+			nDynTests++
+			dynSucc := b.Succs[0]
+			if isNegated(iff.Cond) {
+				dynSucc = b.Succs[1]
+			}
+			seen := map[*ssa.BasicBlock]bool{}
+			work := []*ssa.BasicBlock{dynSucc}
+			for len(work) > 0 {
+				x := work[len(work)-1]
+				work = work[:len(work)-1]
+				if seen[x] || x == hInner {
+					continue
+				}
+				seen[x] = true
+				if len(x.Instrs) > 0 {
+					if _, isRet := x.Instrs[len(x.Instrs)-1].(*ssa.Return); isRet {
+						okV2, whyV2 = false, "a dimension declared symbolic/unspecified can still be refused (a return is reachable on the dynamic edge, "+c.pos(x.Instrs[len(x.Instrs)-1].Pos())+"): tensors with any size there are no longer accepted"
+					}
+				}
+				work = append(work, x.Succs...)
+			}
+		}
+		if nDynTests == 0 {
+			okV2, whyV2 = false, "no test of the dynamic flag of a declared dimension"
+		}
 	} else {
 		okV2, whyV2 = false, "no dimension loop"
 	}
